@@ -1632,4 +1632,44 @@ theorem idle_death_step (s : State) (p : Nat) (hq : Quiescent s) (hd : DeadIn s 
   · simp [terminateBroken, joinExecutorInternals, killWorkers, failPending, flagAsBroken, hp, failAll]
 
 
+
+/-! ### The error message; `terminate_broken` with the client in between -/
+
+theorem getExitcodeName_ok (names : List (Nat × String)) (e : Int) :
+    getExitcodeName names e =
+      .ok (if e < 0 then (names.lookup (-e).toNat).getD "UNKNOWN" else if e ≠ 255 then "EXIT" else "UNKNOWN") := by
+  unfold getExitcodeName signalsName
+  split
+  · cases h : names.lookup (-e).toNat <;> simp
+  · split <;> rfl
+
+theorem formatExitcodes_ok (names : List (Nat × String)) (es : List Int) :
+    ∃ s, formatExitcodes names es = .ok s := by
+  have hm : ∀ l : List Int, ∃ parts, l.mapM (fun e => do
+      let n ← getExitcodeName names e
+      pure (n ++ "(" ++ toString e ++ ")")) = (.ok parts : Except PyErr (List String)) := by
+    intro l
+    induction l with
+    | nil => exact ⟨[], rfl⟩
+    | cons a l ih =>
+      obtain ⟨parts, hp⟩ := ih
+      rw [List.mapM_cons, getExitcodeName_ok, hp]
+      exact ⟨_, rfl⟩
+  obtain ⟨parts, hp⟩ := hm es
+  exact ⟨_, by unfold formatExitcodes; rw [hp]; rfl⟩
+
+theorem submits_on_broken (s : State) (args : List Nat) (b : Exc) (h : s.flags.broken = some b) :
+    submits s args = s := by
+  unfold submits
+  induction args with
+  | nil => rfl
+  | cons a as ih => rw [List.foldl_cons, submit_on_broken s a b h]; exact ih
+
+theorem terminateBrokenInterleaved_eq (s : State) (bpe : Exc) (a1 a2 a3 : List Nat) :
+    terminateBrokenInterleaved s bpe a1 a2 a3 = terminateBroken s bpe := by
+  unfold terminateBrokenInterleaved terminateBroken
+  rw [submits_on_broken (flagAsBroken s bpe) a1 bpe rfl,
+    submits_on_broken (failPending (flagAsBroken s bpe) bpe) a2 bpe rfl,
+    submits_on_broken (killWorkers (failPending (flagAsBroken s bpe) bpe)) a3 bpe rfl]
+
 end JoblibModel.LokyMgr
